@@ -238,6 +238,45 @@ class XRunner(c07.Runner):
 # ------------------------------------------------------------------ connection level: a real KmipSession per connection
 SESSION_FIELDS_WRITTEN = set()          # KmipSession methods other than __init__ must not assign any attribute of self
 BAD_FRAME = b'\x42\x00\x78\x01\x00\x00\x00\x10' + b'\x42\x00\x69\x01\x00\x00\x00\x08' + b'\xde\xad\xbe\xef' * 2   # framed, not a request
+AUTH_FAILED = 'An error occurred during client authentication. See server logs for more information.'
+# the directory of the (stubbed) SLUGS authentication service: user -> group code (c07.GROUPS); mallory is unknown to it
+SLUGS_DIRECTORY = {'alice': 0, 'bob': 1, 'carol': 3, 'dave': 2}
+SLUGS_URL = 'http://slugs.test/'
+
+
+def slugs_who(user_index):
+    """The requester code of a user authenticated through the SLUGS stub (mallory: 4, never authenticated)."""
+    name = c07.USERS[user_index]
+    return user_index + 100 * SLUGS_DIRECTORY.get(name, 0)
+
+
+class _SlugsResponse:
+    def __init__(self, status, body=None):
+        self.status_code = status
+        self._body = body
+
+    def json(self):
+        return self._body
+
+
+def slugs_get(url, timeout=None):
+    """Stands in for requests.get inside kmip.services.server.auth.slugs."""
+    assert url.startswith(SLUGS_URL + 'users/'), url
+    rest = url[len(SLUGS_URL + 'users/'):]
+    user = rest.split('/')[0]
+    if user not in SLUGS_DIRECTORY:
+        return _SlugsResponse(404)
+    if rest.endswith('/groups'):
+        g = c07.GROUPS[SLUGS_DIRECTORY[user]]
+        return _SlugsResponse(200, {} if g is None else {'groups': list(g)})
+    return _SlugsResponse(200, {})
+
+
+def new_auth_settings():
+    """What KmipServer builds once from its configuration and hands to EVERY session it starts."""
+    return [('auth:slugs', {'enabled': 'True', 'url': SLUGS_URL})]
+
+
 TOO_LARGE = 'Response message length too large. See server logs for more information.'
 PARSE_ERROR = 'Error parsing request message. See server logs for more information.'
 
@@ -286,19 +325,25 @@ class SessRunner(XRunner):
     """XRunner whose requests travel as encoded frames through a real KmipSession per client connection; the fresh side of
     every comparison is a NEW connection (new session object) to a fresh engine on a copy of the database."""
 
-    def __init__(self, ctx, eng, fork=True):
+    def __init__(self, ctx, eng, fork=True, slugs=False):
         super().__init__(ctx, eng, fork=fork)
         import sessdrv
         self.sd = sessdrv
         self.conns = {}            # who -> (conn id, session, pipe, proxy)
         self.nconn = 0
+        self.slugs = slugs
+        # as in KmipServer: ONE settings object for all sessions of the live server; the reference gets fresh ones
+        self.auth_settings = new_auth_settings() if slugs else None
 
-    def open_connection(self, eng, who):
+    def open_connection(self, eng, who, live=True):
         from kmip.services.server import session as session_mod
         import logging
         proxy = self.sd.EngineProxy(eng)
         pipe = Pipe(self.sd.make_cert([c07.identity(who)[0]], 'client'))
-        sess = session_mod.KmipSession(proxy, pipe, ('192.0.2.7', 5696), name='c11', enable_tls_client_auth=True, auth_settings=None)
+        settings = None
+        if self.slugs:
+            settings = self.auth_settings if live else new_auth_settings()
+        sess = session_mod.KmipSession(proxy, pipe, ('192.0.2.7', 5696), name='c11', enable_tls_client_auth=True, auth_settings=settings)
         sess._logger.setLevel(logging.CRITICAL + 1)
         self.nconn += 1
         return (self.nconn, sess, pipe, proxy)
@@ -326,6 +371,8 @@ class SessRunner(XRunner):
 
     def restart(self, dispose=True):
         self.conns.clear()
+        if self.slugs:
+            self.auth_settings = new_auth_settings()     # a restarted server reads its configuration again
         if dispose:
             try:
                 self.eng.engine._data_store.dispose()
@@ -345,16 +392,21 @@ class SessRunner(XRunner):
                 self.conns[who] = self.open_connection(eng, who)
             cid, sess, pipe, proxy = self.conns[who]
         else:
-            cid, sess, pipe, proxy = self.open_connection(eng, who)
+            cid, sess, pipe, proxy = self.open_connection(eng, who, live=False)
         engine_mod.time = eng.clock
         ncalls, nsent = len(proxy.calls), len(pipe.sent)
         pipe.feed(frame)
         escaped = None
+        from kmip.services.server.auth import slugs as slugs_mod
+        old_get = slugs_mod.requests.get
+        slugs_mod.requests.get = slugs_get
         try:
             sess._handle_message_loop()
         except Exception as e:                  # KmipSession.run logs it and goes on: the client gets nothing for this message
             escaped = type(e).__name__
             pipe.buf = b''
+        finally:
+            slugs_mod.requests.get = old_get
         if escaped is None and len(pipe.sent) != nsent + 1:
             raise RuntimeError('the session sent %d messages for one frame' % (len(pipe.sent) - nsent))
         data = pipe.sent[-1] if len(pipe.sent) > nsent else b''
@@ -370,7 +422,8 @@ class SessRunner(XRunner):
             fin = 'the session raised %s; %d bytes sent' % (escaped, len(data))
         elif final is not None and len(final['items']) == 1 and final['items'][0]['op'] is None:
             m = final['items'][0]['message']
-            outcome = 'toolarge' if m == TOO_LARGE else ('invalid' if m == PARSE_ERROR and call is None else 'answer')
+            outcome = 'toolarge' if m == TOO_LARGE else ('invalid' if m == PARSE_ERROR and call is None else
+                                                         ('authfail' if m == AUTH_FAILED and call is None else 'answer'))
         r = {'error': None, 'items': [], 'raw': None, 'max_size': None, 'version': None, 'header': None}
         englen = 0
         if call is None:
@@ -398,6 +451,8 @@ class SessRunner(XRunner):
     def error_out(self, r):
         if r['session']['outcome'] == 'invalid':
             return 'SInvalid', 'Invalid'
+        if r['session']['outcome'] == 'authfail':
+            return 'SAuthFail', 'AuthFail'
         if r['session']['outcome'] == 'escaped':
             return '(XErr EVersion)', 'SessionRaised'        # no model outcome for "no answer at all": will disagree, as it must
         return super().error_out(r)
@@ -409,6 +464,9 @@ class SessRunner(XRunner):
         if se['outcome'] == 'invalid':
             ev = 'SBadF %d %s' % (se['conn'], who)
             out = 'SInvalid'
+        elif se['outcome'] == 'authfail':
+            ev = 'SNoAuthF %d %s' % (se['conn'], who)
+            out = 'SAuthFail'
         else:
             ev = 'SF %d (%s) %s %d' % (se['conn'], ev_term, 'None' if max_size is None else '(Some %d)' % max_size, se['engine_len'])
             out = 'STooLarge' if se['outcome'] == 'toolarge' else '(SAnswer %s)' % out_term
@@ -489,6 +547,14 @@ def process_request_is_synchronized(repo):
     ok = any(isinstance(i.context_expr, ast.Attribute) and i.context_expr.attr == '_lock' for w in inner for i in w.items)
     if not ok:
         return '_synchronize does not take self._lock'
+    # ... and takes it unconditionally: the wrapper's body is the `with self._lock:` statement and nothing else
+    wrappers = [n for n in sy.body if isinstance(n, ast.FunctionDef)]
+    if len(wrappers) != 1:
+        return '_synchronize has %d inner functions' % len(wrappers)
+    body = [st for st in wrappers[0].body if not (isinstance(st, ast.Expr) and isinstance(getattr(st, 'value', None), ast.Constant))]
+    if len(body) != 1 or not isinstance(body[0], ast.With):
+        return '_synchronize does more than `with self._lock: return function(...)` (%s): some calls may run outside the lock' % (
+            [type(st).__name__ for st in body])
     return None
 
 
@@ -510,7 +576,7 @@ def fork_engine(eng, work):
             shutil.copy(eng.path + suffix, dst + suffix)
     if not os.path.exists(dst):
         open(dst, 'wb').close()
-    return kdrv.Engine(path=dst, policies=eng.policies, clock=eng.clock)
+    return kdrv.Engine(path=dst, policies=c07.build_policies(), clock=eng.clock)       # nothing mutable is shared with the live server
 
 
 def proj(r, issued=()):
@@ -662,8 +728,16 @@ def gen_history(ctx, rng, run, length, ckp_budget):
             run.request(c07.owner_of(tr, eng, tgt, rng), ver, False, [{'op': 'destroy', 'tgt': tgt}])
             n += 1
         elif x < 0.84:
-            run.request(c07.pick_who(rng), ver, False, [{'op': 'locate'}])
-            n += 1
+            if rng.random() < 0.35:
+                run.request(c07.pick_who(rng), ver, False, [{'op': 'locate'}])
+                n += 1
+            else:                                      # DiscoverVersions / Query, then probes under versions the client did not list
+                ctx.count('pattern.discover_or_query_then_probe')
+                items = [c07.gen_info_spec(rng)] + ([c07.gen_info_spec(rng)] if rng.random() < 0.3 else [])
+                run.request(c07.pick_who(rng), rng.choice([(1, 1), (1, 2), (1, 4), (2, 0), ver]), True, items)
+                run.request(c07.pick_who(rng), c07.pick_version(rng), False,
+                            [rng.choice([idless(rng), {'op': 'discover', 'vs': []}, {'op': 'locate'}, creating()])])
+                n += 2
         elif x < 0.90:
             ctx.count('pattern.restart')
             run.restart(dispose=rng.random() < 0.5)
@@ -712,6 +786,18 @@ def scenarios():
             sc.append(('req', 1, v, False, [C, {'op': 'addr', 'k': 'AGet', 'tgt': None}], dict(kw)))
             sc.append(('req', 0, (1, 0), False, [{'op': 'addr', 'k': 'AGetAttributeList', 'tgt': ['ref', 0]}], {}))
             sc.append(('req', 0, (1, 2), False, [{'op': 'addr', 'k': 'AEncrypt', 'tgt': None}], {}))
+    out.append(sc)
+    # DiscoverVersions with client lists and Query with every function, then probes under every version
+    DV = lambda vs: {'op': 'discover', 'vs': [list(v) for v in vs]}
+    sc = [('req', 0, (1, 2), False, [C], {})]
+    for vs in ([(1, 4), (1, 0)], [(1, 0), (2, 0), (1, 0)], [(9, 9)], [(1, 5), (1, 2)], [], [(1, 1)]):
+        sc.append(('req', 1, (1, 4), False, [DV(vs)], {}))
+        for v in kdrv.VERSIONS:
+            sc.append(('req', 0, v, False, [{'op': 'addr', 'k': 'AGetAttributeList', 'tgt': ['ref', 0]}], {}))
+        sc.append(('req', 2, (1, 1), False, [DV([])], {}))
+    for f in c07.QUERY_FUNCTIONS:
+        sc.append(('req', 1, (1, 0), True, [{'op': 'query', 'funcs': [f]}, {'op': 'query', 'funcs': c07.QUERY_FUNCTIONS}], {}))
+        sc.append(('req', 0, (1, 2), False, [{'op': 'query', 'funcs': ['QUERY_OPERATIONS']}], {}))
     out.append(sc)
     # a request rejected at message level, then a probe that repeats the rejected header values (any client)
     GAL = {'op': 'addr', 'k': 'AGetAttributeList', 'tgt': ['ref', 0]}
@@ -772,6 +858,23 @@ def conn_scenarios():
     return out
 
 
+def slugs_scenarios():
+    """Connections authenticated through the (stubbed) SLUGS service; ONE settings object for all of them."""
+    T = {'op': 'create', 'good': True, 'rich': True, 'pol': 1}
+    G = lambda t, k='AGet': {'op': 'addr', 'k': k, 'tgt': t}
+    L = {'op': 'locate'}
+    alice, bob, carol, dave, mallory = [slugs_who(u) for u in range(5)]
+    sc = [('req', alice, (1, 2), False, [T], {}), ('req', bob, (1, 2), False, [G(['ref', 0])], {}),
+          ('req', bob, (1, 2), False, [G(['ref', 0])], {}), ('req', mallory, (1, 2), False, [L], {}),
+          ('req', mallory, (1, 2), False, [T], {}), ('req', carol, (1, 4), False, [L], {}), ('req', dave, (1, 4), False, [L], {}),
+          ('reconnect', None), ('req', bob, (1, 2), False, [G(['ref', 0], 'AGetAttributes')], {}),
+          ('req', mallory, (1, 2), False, [L], {}), ('req', alice, (1, 2), False, [L], {'max_size': 100}),
+          ('req', carol, (1, 2), False, [{'op': 'destroy', 'tgt': ['ref', 0]}], {}), ('req', alice, (1, 2), False, [G(['ref', 0])], {}),
+          ('restart',), ('req', bob, (1, 2), False, [T], {}), ('req', carol, (1, 2), False, [G(['newest'])], {}),
+          ('req', mallory, (2, 0), False, [L], {}), ('req', carol, (1, 2), False, [G(['newest'])], {})]
+    return [sc]
+
+
 def play_conn(run, script):
     for ev in script:
         if ev[0] == 'restart':
@@ -788,23 +891,30 @@ def play_conn(run, script):
 def gen_conn_history(ctx, rng, run, length):
     tr, eng = run.tr, run.eng
     n = 0
+    # with the authentication service in use the requester code of a user is what the service says about him
+    whof = (lambda u: slugs_who(u)) if run.slugs else (lambda u: u)
+    nusers = 5 if run.slugs else 3
     while n < length:
         x = rng.random()
-        who = rng.randrange(3)
+        who = whof(rng.randrange(nusers))
         ver = c07.pick_version(rng)
         kw = {}
         if rng.random() < 0.35:
             kw['max_size'] = rng.choice(SMALL + [1, 100000])
         if x < 0.22:
             s_ = c07.gen_create_spec(rng, tr, cheap=True)
+            if run.slugs and rng.random() < 0.6:
+                s_['pol'] = 1
             run.request(who, ver, False, [s_], **kw)
         elif x < 0.62:                                 # read something (the answers that can be too large)
             tgt = c07.gen_target(rng, tr, allow_none=False, dead_bias=0.05)
-            w = c07.owner_of(tr, eng, tgt, rng) % 100 % 3
+            w = whof(c07.owner_of(tr, eng, tgt, rng) % 100 % nusers)
+            if run.slugs and rng.random() < 0.4:
+                w = whof(rng.choice([1, 2]))            # a custodian
             k = rng.choice(['AGet', 'AGet', 'AGetAttributes', 'AGetAttributeList'])
             run.request(w, ver, False, [{'op': 'addr', 'k': k, 'tgt': tgt}], **kw)
         elif x < 0.70:
-            run.request(who, ver, False, [{'op': 'locate'}], **kw)
+            run.request(who, ver, False, [{'op': 'locate'} if rng.random() < 0.5 else c07.gen_info_spec(rng)], **kw)
         elif x < 0.78:                                 # requests that end early, with a limit in the header
             y = rng.random()
             if y < 0.3:
@@ -819,7 +929,7 @@ def gen_conn_history(ctx, rng, run, length):
             if rng.random() < 0.7:                     # ... repeated by the next message (same or another connection)
                 ctx.count('pattern.rejected_header_repeated')
                 tgt = c07.gen_target(rng, tr, allow_none=False, dead_bias=0.05)
-                run.request(rng.choice([who, rng.randrange(3)]), ver, False,
+                run.request(rng.choice([who, whof(rng.randrange(3))]), ver, False,
                             [{'op': 'addr', 'k': rng.choice(['AGetAttributeList', 'AGet']), 'tgt': tgt}], **kw)
                 n += 1
         elif x < 0.86:
@@ -852,7 +962,7 @@ def replay_events(run, events):
         elif ev['ev'] == 'bad_frame':
             run.bad_frame(ev['who'])
         else:
-            specs = [{k: v for k, v in it.items() if k in ('op', 'good', 'rich', 't', 'bases', 'tgt', 'w', 'k', 'variant', 'pol', 'prot')}
+            specs = [{k: v for k, v in it.items() if k in ('op', 'good', 'rich', 't', 'bases', 'tgt', 'w', 'k', 'variant', 'pol', 'prot', 'vs', 'funcs')}
                      for it in ev['items']]
             run.request(ev['who'], tuple(ev['ver']), ev['cont'], specs, stamp=ev.get('stamp', 'absent'),
                         asynchronous=ev.get('async'), undo=ev.get('undo', False), ids=ev.get('ids'), max_size=ev.get('max_size'))
@@ -973,10 +1083,10 @@ def run(ctx):
     # ---- connection level: the same comparison with a real KmipSession per connection
     conn_cases, conn_hits = [], []
 
-    def one_conn(script=None, seed_name=None, length=0):
+    def one_conn(script=None, seed_name=None, length=0, slugs=False):
         eng = c07.new_engine(ctx.work)
         try:
-            run_ = SessRunner(ctx, eng)
+            run_ = SessRunner(ctx, eng, slugs=slugs)
             if script is not None:
                 play_conn(run_, script)
             else:
@@ -987,7 +1097,7 @@ def run(ctx):
                 ctx.case_seen(('conn', evt, obt), nontrivial=ev['ev'] != 'restart')
         finally:
             if 'run_' in locals():
-                conn_hits.extend(run_.hits)
+                conn_hits.extend([(dict(sg, auth='slugs'), dict(w_, slugs=True), wh) if slugs else (sg, w_, wh) for sg, w_, wh in run_.hits])
             eng.close()
 
     def guarded(**kw):
@@ -1000,8 +1110,10 @@ def run(ctx):
 
     for sc in conn_scenarios():
         guarded(script=sc)
+    for sc in slugs_scenarios():
+        guarded(script=sc, slugs=True)
     for k in range(20 if quick else 150):
-        guarded(seed_name='conn%d' % k, length=ctx.subrng('clen%d' % k).randrange(8, 30))
+        guarded(seed_name='conn%d' % k, length=ctx.subrng('clen%d' % k).randrange(8, 30), slugs=(k % 2 == 1))
     ctx.count('probe.live_vs_fresh_comparisons_incl_connections', forks[0])
     ctx.log('ran %d connection-level histories, %d events' % (len(conn_cases), sum(len(e) for _, e in conn_cases)))
     bad = ctx.run_cases('connections', HEADER_S, [h for h, _ in conn_cases], 'scheck_history', shard=25,
@@ -1016,13 +1128,16 @@ def run(ctx):
                             'on the live connection than on a new connection to a fresh engine on a copy of the same database')
         if k == 0:
             try:
-                got = shrink(ctx, w['history'], runner=SessRunner)
+                import functools
+                got = shrink(ctx, w['history'], runner=functools.partial(SessRunner, slugs=bool(w.get('slugs'))))
                 if got is not None:
                     n0 = len(w['history'])
                     w = dict(got[1], shrunk_from=n0)
+                    what = got[2].replace('by the live engine than by a fresh engine on a copy of the same database',
+                                          'on the live connection than on a new connection to a fresh engine on a copy of the same database')
             except Exception as e:
                 w = dict(w, shrink_error=repr(e))
-        ctx.violation(sig, dict(w, level='connection'), what)
+        ctx.violation(sig, dict(w, level='connection', slugs=bool(sig.get('auth'))), what)
 
     first = True
     for sig, w, what in all_hits:
@@ -1052,7 +1167,7 @@ def replay(ctx, data):
     eng = c07.new_engine(ctx.work)
     try:
         conn_level = w.get('level') == 'connection'
-        run_ = (SessRunner if conn_level else XRunner)(c07.NullCtx(ctx.work), eng)
+        run_ = SessRunner(c07.NullCtx(ctx.work), eng, slugs=bool(w.get('slugs'))) if conn_level else XRunner(c07.NullCtx(ctx.work), eng)
         replay_events(run_, events)
         for sig, wit, what in run_.hits:
             print('REPRODUCED:', what)
